@@ -23,7 +23,8 @@ SPECS = [
          binds=_A("ver", "ln", "nmaxb", "nbr"), ret=OPT(TUP(INT, INT)),
          note="cut: the checks between the attribute read and the block loop; result: None or (last_block_number, nbr)"),
     Spec(GROUP, "t3_read_batch_end", F, N + "_read_ndef_data", [("i", INT), ("nbr", INT), ("last_block_number", INT)],
-         expr="min(i + nbr, last_block_number)", note="cut: the last block (exclusive) of one read command"),
+         expr="min(i + nbr, last_block_number)", whole=True,
+         note="cut: the last block (exclusive) of one read command (the whole right-hand side of the assignment)"),
     Spec(GROUP, "t3_write_plan", F, N + "_write_ndef_data", [("data", BYTES)], stmts=[5, 7],
          result=["last_block_number", "data"],
          note="cut: number of the block behind the data and the zero padded data (statements 5 and 7)"),
